@@ -1,250 +1,7 @@
 package c07
 
-import (
-	"bytes"
-	"fmt"
-	"strings"
+import "verif/ref/pbref"
 
-	"verif/ref/pbref"
-)
+func programs(tier string) []*pbref.Schema { return pbref.StdPrograms(tier) }
 
-// IntKeyKinds: integer map key kinds in scope (bool keys are outside the quantifier).
-var keyKinds = []pbref.Kind{pbref.KInt32, pbref.KInt64, pbref.KUint32, pbref.KUint64, pbref.KSint32, pbref.KSint64, pbref.KFixed32, pbref.KFixed64, pbref.KSfixed32, pbref.KSfixed64, pbref.KString}
-
-var progCache = map[string][]*pbref.Schema{}
-
-func programs(tier string) []*pbref.Schema {
-	if p := progCache[tier]; p != nil {
-		return p
-	}
-	ps := []*pbref.Schema{pbref.ProgScalars("low"), pbref.ProgScalars("tags"), pbref.ProgLists("low"), pbref.ProgLists("tags")}
-	for _, k := range keyKinds {
-		ps = append(ps, pbref.ProgMaps(k))
-	}
-	ps = append(ps, pbref.ProgNested(), pbref.ProgBigID(2048), pbref.ProgBigID(262144))
-	if tier == "thorough" {
-		ps = append(ps, pbref.ProgBigID(1<<25), pbref.ProgBigID(1<<29-1))
-	}
-	progCache[tier] = ps
-	return ps
-}
-
-var msgCache = map[string][]pbref.NV{}
-
-func messages(s *pbref.Schema, tier string) []pbref.NV {
-	key := s.ID + "/" + tier
-	if m := msgCache[key]; m != nil {
-		return m
-	}
-	var out []pbref.NV
-	seen := map[string]bool{}
-	add := func(name string, v *pbref.Val) {
-		k := v.String()
-		if seen[k] {
-			return
-		}
-		seen[k] = true
-		out = append(out, pbref.NV{Name: name, V: v})
-	}
-	root := s.Root
-	maxN := 3
-	if tier == "thorough" {
-		maxN = 6
-	}
-	val := func(f *pbref.Field, i int) *pbref.Val {
-		switch {
-		case f.Card == pbref.Repeated:
-			return pbref.ListVal(f, 2+i%2)
-		case f.Card == pbref.Map:
-			return pbref.MapVal(f, 2+i%2)
-		case f.Kind == pbref.KMessage:
-			return pbref.ItemVal(f.Msg, i)
-		}
-		return pbref.Elem(f.Kind, i)
-	}
-	switch {
-	case s.ID == "nested":
-		for _, nv := range nestedMessages(s) {
-			add(nv.Name, nv.V)
-		}
-	case strings.HasPrefix(s.ID, "bigid"):
-		add("empty", pbref.MsgVal(root))
-		all := pbref.MsgVal(root)
-		for i, f := range root.Fields {
-			add("single", pbref.MsgVal(root).Set(f, val(f, i)))
-			all.Set(f, val(f, i))
-		}
-		add("all", all)
-	default:
-		add("empty", pbref.MsgVal(root))
-		// single fields over their alphabets / sizes
-		for _, f := range root.Fields {
-			switch f.Card {
-			case pbref.Single:
-				for _, a := range pbref.Alphabet(f.Kind) {
-					add("single", pbref.MsgVal(root).Set(f, a))
-				}
-			case pbref.Repeated:
-				for n := 0; n <= maxN; n++ {
-					add("list", pbref.MsgVal(root).Set(f, pbref.ListVal(f, n)))
-				}
-				if f.Kind != pbref.KMessage {
-					add("list-alphabet", pbref.MsgVal(root).Set(f, pbref.ListOf(f, pbref.Alphabet(f.Kind)...)))
-				}
-			case pbref.Map:
-				for n := 0; n <= maxN; n++ {
-					add("map", pbref.MsgVal(root).Set(f, pbref.MapVal(f, n)))
-				}
-				if f.Kind == pbref.KInt32 {
-					m := pbref.MapOf(f)
-					for _, k := range pbref.Alphabet(f.Key) {
-						m.Put(k, pbref.Int(pbref.KInt32, 7))
-					}
-					add("map-key-alphabet", pbref.MsgVal(root).Set(f, m))
-				}
-			}
-		}
-		// all pairs of fields (skipping one kind of field to reach another)
-		fs := root.SortedFields()
-		for i := 0; i < len(fs); i++ {
-			for j := i + 1; j < len(fs); j++ {
-				add("pair", pbref.MsgVal(root).Set(fs[i], val(fs[i], i)).Set(fs[j], val(fs[j], j)))
-			}
-		}
-		if tier == "thorough" {
-			// all triples of fields
-			for i := 0; i < len(fs); i++ {
-				for j := i + 1; j < len(fs); j++ {
-					for k := j + 1; k < len(fs); k++ {
-						add("triple", pbref.MsgVal(root).Set(fs[i], val(fs[i], i)).Set(fs[j], val(fs[j], j+1)).Set(fs[k], val(fs[k], k+2)))
-					}
-				}
-			}
-		}
-		// windows of 4 fields in declaration order
-		for i := 0; i+4 <= len(root.Fields); i++ {
-			m := pbref.MsgVal(root)
-			for j := i; j < i+4; j++ {
-				m.Set(root.Fields[j], val(root.Fields[j], j))
-			}
-			add("window4", m)
-		}
-		all := pbref.MsgVal(root)
-		for i, f := range root.Fields {
-			all.Set(f, val(f, i+1))
-		}
-		add("all", all)
-	}
-	msgCache[key] = out
-	return out
-}
-
-func nestedMessages(s *pbref.Schema) []pbref.NV {
-	root := s.Root
-	fa, fra, fma, fmi, fr, fx, ftail, fe := root.ByName("a"), root.ByName("ra"), root.ByName("ma"), root.ByName("mi"), root.ByName("r"), root.ByName("x"), root.ByName("tail"), root.ByName("e")
-	sub1 := fa.Msg
-	sub2 := sub1.ByName("d").Msg
-	rec := fr.Msg
-	S1 := func(kv ...interface{}) *pbref.Val {
-		m := pbref.MsgVal(sub1)
-		for i := 0; i < len(kv); i += 2 {
-			m.Set(sub1.ByName(kv[i].(string)), kv[i+1].(*pbref.Val))
-		}
-		return m
-	}
-	S2 := func(kv ...interface{}) *pbref.Val {
-		m := pbref.MsgVal(sub2)
-		for i := 0; i < len(kv); i += 2 {
-			m.Set(sub2.ByName(kv[i].(string)), kv[i+1].(*pbref.Val))
-		}
-		return m
-	}
-	R := func(kv ...interface{}) *pbref.Val {
-		m := pbref.MsgVal(rec)
-		for i := 0; i < len(kv); i += 2 {
-			m.Set(rec.ByName(kv[i].(string)), kv[i+1].(*pbref.Val))
-		}
-		return m
-	}
-	T := func(kv ...interface{}) *pbref.Val {
-		m := pbref.MsgVal(root)
-		for i := 0; i < len(kv); i += 2 {
-			m.Set(kv[i].(*pbref.Field), kv[i+1].(*pbref.Val))
-		}
-		return m
-	}
-	i32 := func(x int64) *pbref.Val { return pbref.Int(pbref.KInt32, x) }
-	str := pbref.Str
-	ints := func(f *pbref.Field, xs ...int64) *pbref.Val {
-		l := pbref.ListOf(f)
-		for _, x := range xs {
-			l.L = append(l.L, pbref.Int(f.Kind, x))
-		}
-		return l
-	}
-	strs := func(f *pbref.Field, ss ...string) *pbref.Val {
-		l := pbref.ListOf(f)
-		for _, x := range ss {
-			l.L = append(l.L, pbref.Str(x))
-		}
-		return l
-	}
-	pl, sl, zl, sm, im := sub1.ByName("pl"), sub1.ByName("sl"), sub1.ByName("zl"), sub1.ByName("sm"), sub1.ByName("im")
-	kids := rec.ByName("kids")
-	smv := func(kv ...interface{}) *pbref.Val {
-		m := pbref.MapOf(sm)
-		for i := 0; i < len(kv); i += 2 {
-			m.Put(str(kv[i].(string)), i32(int64(kv[i+1].(int))))
-		}
-		return m
-	}
-	full1 := func(i int) *pbref.Val {
-		return S1("i", i32(int64(10+i)), "s", str(fmt.Sprintf("sub%d", i)), "d", S2("z", pbref.Int(pbref.KSint32, int64(-3-i)), "b", pbref.Bytes([]byte{1, 2, byte(i)}), "e", pbref.MsgVal(sub2.ByName("e").Msg)),
-			"pl", ints(pl, 1, -2, 300), "sl", strs(sl, "a", "", "c"), "sm", smv("k", 1, "", 2), "zl", ints(zl, 1, -2, -1<<40),
-			"im", pbref.MapOf(im).Put(pbref.Int(pbref.KInt64, 7), str("x")).Put(pbref.Int(pbref.KInt64, -1), str("")))
-	}
-	var out []pbref.NV
-	add := func(name string, v *pbref.Val) { out = append(out, pbref.NV{Name: name, V: v}) }
-	add("empty-root", pbref.MsgVal(root))
-	add("empty-submessage", T(fa, S1()))
-	add("empty-submessage-last", T(fx, i32(3), fe, pbref.MsgVal(fe.Msg)))
-	add("empty-submessage-between", T(fa, S1(), fx, i32(3)))
-	add("sub-scalar", T(fa, S1("i", i32(5))))
-	add("sub-string", T(fa, S1("s", str("x"))))
-	add("depth2-empty", T(fa, S1("d", S2())))
-	add("depth2-scalar", T(fa, S1("d", S2("z", pbref.Int(pbref.KSint32, -3)))))
-	add("depth3-empty", T(fa, S1("d", S2("e", pbref.MsgVal(sub2.ByName("e").Msg)))))
-	add("depth2-bytes-and-empty", T(fa, S1("d", S2("b", pbref.Bytes([]byte{9}), "e", pbref.MsgVal(sub2.ByName("e").Msg)))))
-	add("sub-packed-list", T(fa, S1("pl", ints(pl, 1, -2, 300))))
-	add("sub-string-list", T(fa, S1("sl", strs(sl, "a", "", "c"))))
-	add("sub-zigzag-list", T(fa, S1("zl", ints(zl, 1, -2, -1<<40))))
-	add("sub-strmap", T(fa, S1("sm", smv("k", 1, "", 2, "zz", 0))))
-	add("sub-intmap", T(fa, S1("im", pbref.MapOf(im).Put(pbref.Int(pbref.KInt64, 7), str("x")).Put(pbref.Int(pbref.KInt64, -1), str("")))))
-	add("sub-full", T(fa, full1(0)))
-	add("sub-full-then-scalars", T(fa, full1(1), fx, i32(6), ftail, str("t")))
-	add("list-of-messages", T(fra, pbref.ListOf(fra, S1("i", i32(1)), S1("s", str("z")))))
-	add("list-of-messages-with-empty", T(fra, pbref.ListOf(fra, S1("i", i32(1)), S1(), S1("s", str("z")))))
-	add("list-of-empty-messages", T(fra, pbref.ListOf(fra, S1(), S1())))
-	add("list-of-full-messages", T(fra, pbref.ListOf(fra, full1(0), full1(1), full1(2))))
-	add("list-of-messages-with-lists", T(fra, pbref.ListOf(fra, S1("sl", strs(sl, "a")), S1("sl", strs(sl, "b", "c")), S1("pl", ints(pl, 7)))))
-	add("strmap-of-messages", T(fma, pbref.MapOf(fma).Put(str("k"), S1("i", i32(1))).Put(str("j"), full1(1))))
-	add("strmap-of-messages-empty-value", T(fma, pbref.MapOf(fma).Put(str("k"), S1()).Put(str(""), S1("i", i32(2)))))
-	add("intmap-of-messages", T(fmi, pbref.MapOf(fmi).Put(i32(5), S1("s", str("v"))).Put(i32(-1), full1(2)).Put(i32(0), S1())))
-	add("recursive-scalar", T(fr, R("v", i32(1))))
-	add("recursive-chain", T(fr, R("next", R("next", R("v", i32(3))))))
-	add("recursive-chain-with-values", T(fr, R("v", i32(1), "next", R("v", i32(2), "next", R("v", i32(3))))))
-	add("recursive-list-flat", T(fr, R("kids", pbref.ListOf(kids, R("v", i32(1)), R("v", i32(2))))))
-	add("recursive-list-nested", T(fr, R("kids", pbref.ListOf(kids, R("kids", pbref.ListOf(kids, R("v", i32(1)))), R("v", i32(2))))))
-	add("recursive-list-nested-empty", T(fr, R("kids", pbref.ListOf(kids, R("kids", pbref.ListOf(kids, R())), R()))))
-	add("sub-string-list-then-same-number-in-parent", T(fa, S1("sl", strs(sl, "x")), fr, R("v", i32(1))))
-	add("sub-strmap-then-same-number-in-parent", T(fa, S1("sm", smv("k", 1)), fx, i32(7)))
-	add("len2-depth1", T(fa, S1("s", str(strings.Repeat("L", 200)))))
-	add("len2-depth2", T(fa, S1("d", S2("b", pbref.Bytes(bytes.Repeat([]byte{0x0a}, 130))))))
-	add("len3-depth0", T(ftail, str(strings.Repeat("T", 20000))))
-	add("len3-depth1", T(fa, S1("s", str(strings.Repeat("M", 17000))), fx, i32(1)))
-	add("len-127", T(fa, S1("s", str(strings.Repeat("m", 125))), fx, i32(1)))
-	add("len-128", T(fa, S1("s", str(strings.Repeat("m", 126))), fx, i32(1)))
-	add("all-top-level", T(fa, full1(0), fra, pbref.ListOf(fra, full1(1), S1()), fma, pbref.MapOf(fma).Put(str("k"), full1(2)), fmi, pbref.MapOf(fmi).Put(i32(1), S1("i", i32(4))),
-		fr, R("v", i32(5), "kids", pbref.ListOf(kids, R("v", i32(6)))), fx, i32(6), ftail, str("t"), fe, pbref.MsgVal(fe.Msg)))
-	return out
-}
+func messages(s *pbref.Schema, tier string) []pbref.NV { return pbref.StdMessages(s, tier) }
